@@ -460,6 +460,86 @@ func (g *Gen) familyOf(p *prng, name, base string) family {
 			}
 		}
 	}
+	// ladders: a conjunction of many lower bounds in ascending order and one upper
+	// bound, over the family's own versions (what accumulated constraints look
+	// like); a version between the last two rungs violates exactly one clause.
+	// Constructor-only, so that whatever a range starts when it is built is still
+	// under way when the task that built it asks its first question.
+	if seps := g.seps[name]; len(seps) > 0 && len(f.vs) >= 4 {
+		lo, hi := "", ""
+		for _, t := range tm {
+			if strings.Count(t, "%s") != 1 {
+				continue
+			}
+			switch templateSig(t) {
+			case ">=":
+				lo = t
+			case "<":
+				hi = t
+			}
+		}
+		if lo != "" && hi != "" {
+			type pv struct {
+				s string
+				v any
+			}
+			var ps []pv
+			for _, s := range f.cands {
+				s = strings.TrimSpace(s)
+				if v, err := guardVersion(e, s); err == nil && v != nil && !strings.ContainsAny(s, " ,|") {
+					ps = append(ps, pv{s, v})
+				}
+			}
+			sort.SliceStable(ps, func(i, j int) bool {
+				return guardB(func() byte {
+					if e.Compare(ps[i].v, ps[j].v) < 0 {
+						return 1
+					}
+					return 0
+				}) == 1
+			})
+			// one spelling per distinct value
+			uniq := ps[:0]
+			for _, x := range ps {
+				if len(uniq) == 0 || guardB(func() byte {
+					if e.Compare(uniq[len(uniq)-1].v, x.v) != 0 {
+						return 1
+					}
+					return 0
+				}) == 1 {
+					uniq = append(uniq, x)
+				}
+			}
+			ps = uniq
+			if len(ps) > 14 {
+				ps = ps[len(ps)-14:]
+			}
+			for si := 0; si < len(seps) && si < 3 && len(ps) >= 4; si++ {
+				// (every separator of the ecosystem in turn: which of them mean
+				// "and" is not known here)
+				sep := seps[(si+p.n(len(seps)))%len(seps)]
+				var parts []string
+				// a small family repeats its lowest rung at the front: the list has
+				// to be long, and the top rungs have to stay unique
+				for k := len(ps); k < 10; k++ {
+					parts = append(parts, strings.Replace(lo, "%s", ps[0].s, 1))
+				}
+				for _, x := range ps[:len(ps)-1] {
+					parts = append(parts, strings.Replace(lo, "%s", x.s, 1))
+				}
+				if p.chance(1, 2) {
+					// the upper bound first, as often written
+					parts = append([]string{strings.Replace(hi, "%s", ps[len(ps)-1].s, 1)}, parts...)
+				} else {
+					parts = append(parts, strings.Replace(hi, "%s", ps[len(ps)-1].s, 1))
+				}
+				r := strings.Join(parts, sep)
+				if len(r) <= 400 && tryR(e, r) {
+					f.rx = append(f.rx, r)
+				}
+			}
+		}
+	}
 	// cut-off ranges: a range text that stops right after an operator or a
 	// separator (what a template with an empty bound produces)
 	for k := 0; k < 4 && len(f.rs) > 0; k++ {
